@@ -340,15 +340,8 @@ func (c *Ctx) checkDecoderLoopRuns(decs []*decoder) {
 		if iff == nil || len(d.header.Succs) != 2 {
 			continue
 		}
-		bo, ok := iff.Cond.(*ssa.BinOp)
+		emptyWhen, ok := c.emptyOutcome(iff.Cond)
 		if !ok {
-			continue
-		}
-		if _, isLen := lenOf(bo.X); !isLen {
-			continue
-		}
-		k, isK := core.ConstInt(bo.Y)
-		if !isK || k != 0 {
 			continue
 		}
 		n++
@@ -359,16 +352,11 @@ func (c *Ctx) checkDecoderLoopRuns(decs []*decoder) {
 				bodyIdx = i
 			}
 		}
-		good := false
-		switch bo.Op {
-		case token.NEQ, token.GTR:
-			good = bodyIdx == 0
-		case token.EQL, token.LEQ:
-			good = bodyIdx == 1
-		}
-		r.Check(good, "R9.11", key, c.P.Pos(bo.Pos()), "the loop body runs while len(buffer) != 0", "the loop body runs when the buffer is empty and is skipped when it is not: every field of a non-empty message is ignored")
+		// the body is on the outcome that means "not empty": Succs[0] is the true outcome
+		good := (bodyIdx == 0 && !emptyWhen) || (bodyIdx == 1 && emptyWhen)
+		r.Check(good, "R9.11", key, c.P.Pos(iff.Cond.Pos()), "the loop body runs while len(buffer) != 0", "the loop body runs when the buffer is empty and is skipped when it is not: every field of a non-empty message is ignored")
 	}
-	r.Floor("R9.11", n, 2)
+	r.Floor("R9.11", n, 1)
 }
 
 // checkPackedRunConsumed implements R9.12: the helper that decodes a packed run succeeds exactly when nothing is left over:
@@ -397,6 +385,14 @@ func (c *Ctx) checkPackedRunConsumed() {
 				if pwName(call) == "ConsumeTag" {
 					hasTag = true
 				}
+				if fw := c.forwarderOfCall(call); fw != nil {
+					if fw.pw == "ConsumeVarint" && core.InCycle(call.Block()) {
+						consumes = true
+					}
+					if fw.pw == "ConsumeTag" {
+						hasTag = true
+					}
+				}
 			}
 		}
 		for _, b := range fn.Blocks {
@@ -419,24 +415,11 @@ func (c *Ctx) checkPackedRunConsumed() {
 				continue
 			}
 			empty := core.GuardedBy(ret.Block(), func(cond ssa.Value) (bool, bool) {
-				bo, ok := cond.(*ssa.BinOp)
+				emptyWhen, ok := c.emptyOutcome(cond)
 				if !ok {
 					return false, false
 				}
-				if _, isLen := lenOf(bo.X); !isLen {
-					return false, false
-				}
-				k, isK := core.ConstInt(bo.Y)
-				if !isK || k != 0 {
-					return false, false
-				}
-				switch bo.Op {
-				case token.GTR, token.NEQ: // len > 0, len != 0: empty on the false edge
-					return false, true
-				case token.EQL, token.LEQ: // len == 0, len <= 0: empty on the true edge
-					return true, true
-				}
-				return false, false
+				return emptyWhen, true
 			})
 			if !empty {
 				bad = append(bad, fmt.Sprintf("the nil return at %s is not confined to an empty remainder", c.P.Pos(ret.Pos())))
@@ -445,4 +428,34 @@ func (c *Ctx) checkPackedRunConsumed() {
 		r.Check(len(bad) == 0, "R9.12", key, c.P.Pos(fn.Pos()), "succeeds exactly when the run is consumed to the last byte", uniqJoin(bad))
 	}
 	r.Floor("R9.12", n, 1)
+}
+
+// emptyOutcome decodes a condition that decides whether a decoder's input is exhausted: len(buf) compared with 0, or the
+// cursor object's done() method (possibly negated). It returns the truth value of the condition that means "empty".
+func (c *Ctx) emptyOutcome(cond ssa.Value) (emptyWhen bool, ok bool) {
+	neg := false
+	if u, isNot := cond.(*ssa.UnOp); isNot && u.Op == token.NOT {
+		cond, neg = u.X, true
+	}
+	switch x := cond.(type) {
+	case *ssa.BinOp:
+		if _, isLen := lenOf(x.X); !isLen {
+			return false, false
+		}
+		k, isK := core.ConstInt(x.Y)
+		if !isK || k != 0 {
+			return false, false
+		}
+		switch x.Op {
+		case token.NEQ, token.GTR:
+			return neg, true // (len != 0) is true when input remains: empty when false
+		case token.EQL, token.LEQ:
+			return !neg, true
+		}
+	case *ssa.Call:
+		if _, trueMeansExhausted, isDone := c.cursorDoneMethod(x.Call.StaticCallee()); isDone {
+			return trueMeansExhausted != neg, true
+		}
+	}
+	return false, false
 }
